@@ -119,7 +119,15 @@ class EllipticalArc(NamedTuple):
         elif theta_arc > 0 and not self.sweep:
             theta_arc -= TWO_PI
 
-        center_point = point_transform.inverse().map_point(center_point)
+        # map back with the explicit inverse of scale(1/rx, 1/ry).rotate(-angle):
+        # Affine2D.inverse() gives up (returns the degenerate matrix) once the
+        # determinant 1/(rx*ry) drops below float epsilon, i.e. for large radii
+        center_point = (
+            Affine2D.identity()
+            .rotate(angle)
+            .scale(self.rx, self.ry)
+            .map_point(center_point)
+        )
 
         return CenterParametrization(theta1, theta_arc, center_point)
 
